@@ -87,17 +87,47 @@ Proof.
   apply (child_not_desc _ _ HR _ _ HP). eapply desc_step; [constructor|exact Hx].
 Qed.
 
-Lemma attach2_spec : forall fuel P target sib n s g l1 l2 GP m1 m2,
-  TI s g -> glive g P -> kids g P = l1 ++ target :: l2 -> ctx g P GP m1 m2 -> sib_ok l2 m2 sib ->
-  wp True (attachSiblings_go fuel P target sib n true) s (fun r s' => exists g' l2' m2',
-     TI s' g' /\ reloc g g' (desc g (top P GP)) /\ kids g' P = l1 ++ target :: l2' /\ ctx g' P GP m1 m2' /\ (forall r, groot g r -> groot g' r) /\ pframe (p_tree s) (p_tree s')).
+(** the row of a name-path object (no arguments): such an object never receives siblings *)
+Definition npIdx : N := match opcodeTableIndex aml_pOpIntNamePath true with Some i => i | None => 0 end.
+Definition tgt (s : pstate) (target : N) : Prop := exists o, tget (p_tree s) target = Some o /\ o_infoIndex o <> npIdx.
+
+Lemma tgt_pframe s (t2 : T) target : tgt s target -> pframe (p_tree s) t2 -> tgt (with_tree s t2) target.
 Proof.
-  induction fuel as [|fuel IH]; intros P target sib n s g l1 l2 GP m1 m2 H HlP Hk Hctx Hsib; cbn [attachSiblings_go].
+  intros (o & Ho & Hn) Hpf. destruct (proj2 Hpf _ _ Ho) as (o2 & Ho2 & (_ & E2 & _)). exists o2. split; [exact Ho2|]. rewrite E2. exact Hn.
+Qed.
+
+Lemma np_row op fl af : opInfo npIdx = Some (op, fl, af) -> (argCount af <=? termArgIndex af) = true.
+Proof. intros H. vm_compute in H. injection H as _ _ <-. reflexivity. Qed.
+
+Definition Kmove (K : T -> ghost -> Prop) : Prop := forall s g par x target pre post (t2 : T),
+  TI s g -> K (p_tree s) g -> kids g par = pre ++ x :: post -> glive g target -> target <> par -> tgt s target ->
+  ((exists pre', pre = pre' ++ [target]) \/ (exists pre' P l1, pre = pre' ++ [P] /\ kids g P = l1 ++ [target])) ->
+  let g2 := astep (astep g (OpDetach par x)) (OpAppend target x) in
+  TI (with_tree s t2) g2 -> kids g2 par = pre ++ post -> kids g2 target = kids g target ++ [x] ->
+  (forall q, q <> par -> q <> target -> kids g2 q = kids g q) -> pframe (p_tree s) t2 ->
+  K t2 g2.
+
+Definition KT : T -> ghost -> Prop := fun _ _ => True.
+Lemma KT_move : Kmove KT.
+Proof. unfold Kmove. intros. exact I. Qed.
+
+Section Inv.
+(** an invariant [K] of the rearrangements: it survives the move of [x] - the sibling that follows [target] or, when [target] is
+    the last child of [P], the sibling that follows [P] - to the end of [target]'s child list, [target] not carrying the name-path row *)
+Variable K : T -> ghost -> Prop.
+Hypothesis K_move : Kmove K.
+
+Lemma attach2_spec : forall fuel P target sib n s g l1 l2 GP m1 m2,
+  TI s g -> glive g P -> kids g P = l1 ++ target :: l2 -> ctx g P GP m1 m2 -> sib_ok l2 m2 sib -> K (p_tree s) g -> tgt s target ->
+  wp True (attachSiblings_go fuel P target sib n true) s (fun r s' => exists g' l2' m2',
+     TI s' g' /\ reloc g g' (desc g (top P GP)) /\ kids g' P = l1 ++ target :: l2' /\ ctx g' P GP m1 m2' /\ (forall r, groot g r -> groot g' r) /\ pframe (p_tree s) (p_tree s') /\ K (p_tree s') g').
+Proof.
+  induction fuel as [|fuel IH]; intros P target sib n s g l1 l2 GP m1 m2 H HlP Hk Hctx Hsib HK Htg; cbn [attachSiblings_go].
   { apply wp_outOfFuel. exact I. }
   pose proof (ti_R _ _ H) as HR. pose proof (R_gwf _ _ HR) as Hwf.
   assert (Hdone : forall (r : pres), wp True (ret r) s (fun r s' => exists g' l2' m2',
-     TI s' g' /\ reloc g g' (desc g (top P GP)) /\ kids g' P = l1 ++ target :: l2' /\ ctx g' P GP m1 m2' /\ (forall r, groot g r -> groot g' r) /\ pframe (p_tree s) (p_tree s'))).
-  { intros r. apply wp_ret. exists g, l2, m2. split; auto. split; [apply reloc_refl|]. split; auto. split; auto. split; auto. apply pframe_refl. }
+     TI s' g' /\ reloc g g' (desc g (top P GP)) /\ kids g' P = l1 ++ target :: l2' /\ ctx g' P GP m1 m2' /\ (forall r, groot g r -> groot g' r) /\ pframe (p_tree s) (p_tree s') /\ K (p_tree s') g')).
+  { intros r. apply wp_ret. exists g, l2, m2. split; auto. split; [apply reloc_refl|]. split; auto. split; auto. split; auto. split; [apply pframe_refl|exact HK]. }
   destruct (n =? 0); [apply Hdone|].
   rewrite andb_true_r.
   assert (Hin_t : In target (kids g P)) by (rewrite Hk; apply in_or_app; right; left; reflexivity).
@@ -109,14 +139,15 @@ Proof.
   (* the continuation after a move *)
   assert (Hrec : forall s2 g2 l2' m2' sib', TI s2 g2 -> reloc g g2 (desc g (top P GP)) -> kids g2 P = l1 ++ target :: l2' ->
             ctx g2 P GP m1 m2' -> sib_ok l2' m2' sib' -> (forall r, groot g r -> groot g2 r) -> pframe (p_tree s) (p_tree s2) ->
+            K (p_tree s2) g2 -> tgt s2 target ->
             wp True (attachSiblings_go fuel P target sib' (n - 1) true) s2 (fun r s' => exists g' l2'' m2'',
-              TI s' g' /\ reloc g g' (desc g (top P GP)) /\ kids g' P = l1 ++ target :: l2'' /\ ctx g' P GP m1 m2'' /\ (forall r, groot g r -> groot g' r) /\ pframe (p_tree s) (p_tree s'))).
-  { intros s2 g2 l2' m2' sib' H2 Rl2 Hk2 Hc2 Hs2 Hroots2 Hpf2.
+              TI s' g' /\ reloc g g' (desc g (top P GP)) /\ kids g' P = l1 ++ target :: l2'' /\ ctx g' P GP m1 m2'' /\ (forall r, groot g r -> groot g' r) /\ pframe (p_tree s) (p_tree s') /\ K (p_tree s') g')).
+  { intros s2 g2 l2' m2' sib' H2 Rl2 Hk2 Hc2 Hs2 Hroots2 Hpf2 HK2 Htg2.
     assert (HlP2 : glive g2 P) by (apply (reloc_glive _ _ _ P Rl2); exact HlP).
-    eapply wp_weaken; [apply (IH P target sib' (n - 1) s2 g2 l1 l2' GP m1 m2' H2 HlP2 Hk2 Hc2 Hs2)|auto|].
-    intros r s' (g' & l2'' & m2'' & F1 & F2 & F3 & F4 & F5 & F6). exists g', l2'', m2''. split; auto.
+    eapply wp_weaken; [apply (IH P target sib' (n - 1) s2 g2 l1 l2' GP m1 m2' H2 HlP2 Hk2 Hc2 Hs2 HK2 Htg2)|auto|].
+    intros r s' (g' & l2'' & m2'' & F1 & F2 & F3 & F4 & F5 & F6 & F7). exists g', l2'', m2''. split; auto.
     split; [eapply reloc_chain; [apply closed_desc|exact HStop|exact Rl2|exact F2]|].
-    split; auto. split; auto. split; auto. eapply pframe_trans; eauto. }
+    split; auto. split; auto. split; auto. split; [eapply pframe_trans; eauto|exact F7]. }
   destruct l2 as [|x l2''].
   - (* the siblings of the target are used up: the siblings of the parent *)
     cbn [sib_ok] in Hsib.
@@ -158,7 +189,10 @@ Proof.
     eapply (move_wp True gp u target (m1 ++ [P]) m2'' _ s g); [exact H|exact Hctx|exact Hlt|exact Hne_tgp| |].
     { eapply (uncle_not_desc _ _ HR gp P u target); eauto. }
     intros t2 g2 H2 Hk2 Hkt2 Hko2 Hrl2 Hroots2 Hpf2.
-    apply (Hrec _ g2 [] m2'' (hd InvalidIndex m2'')); auto.
+    assert (HK2 : K t2 g2).
+    { apply (K_move s g gp u target (m1 ++ [P]) m2'' t2 H HK Hctx Hlt Hne_tgp Htg); auto.
+      right. exists m1, P, l1. split; [reflexivity|exact Hk]. }
+    apply (Hrec _ g2 [] m2'' (hd InvalidIndex m2'')); auto; [| | | |apply tgt_pframe; auto].
     + apply Hrl2; [exact HStop| exact HSt|]. eapply desc_step; [constructor|exact Hin_u].
     + rewrite Hko2; auto. intros E. apply (R_child_neq_parent _ _ HR _ _ Hin_P). exact E.
     + cbn [ctx]. rewrite Hk2, <- app_assoc. reflexivity.
@@ -183,7 +217,10 @@ Proof.
     eapply (move_wp True P x target (l1 ++ [target]) l2'' _ s g); [exact H|exact Hk|exact Hlt|exact Hne_tP| |].
     { intros Hd. apply Hne_xt. symmetry. eapply (sibling_not_desc _ _ HR P x target); eauto. }
     intros t2 g2 H2 Hk2 Hkt2 Hko2 Hrl2 Hroots2 Hpf2.
-    apply (Hrec _ g2 l2'' m2 (hd InvalidIndex l2'')); auto.
+    assert (HK2 : K t2 g2).
+    { apply (K_move s g P x target (l1 ++ [target]) l2'' t2 H HK Hk Hlt Hne_tP Htg); auto.
+      left. exists l1. reflexivity. }
+    apply (Hrec _ g2 l2'' m2 (hd InvalidIndex l2'')); auto; [| | | |apply tgt_pframe; auto].
     + apply Hrl2; [exact HSP|exact HSt|]. eapply desc_step; [exact HSP|exact Hin_x].
     + rewrite Hk2, <- app_assoc. reflexivity.
     + destruct GP as [gp|]; cbn [ctx] in Hctx |- *.
@@ -204,20 +241,20 @@ Qed.
 (** ---- connectNonNamedObjArg ---- *)
 Definition apost (s : pstate) (g : ghost) (P : N) (GP : option N) (m1 : list N) (s' : pstate) (g' : ghost) (m2' : list N) : Prop :=
   TI s' g' /\ reloc g g' (desc g (top P GP)) /\ ctx g' P GP m1 m2' /\ (forall r, groot g r -> groot g' r) /\
-  pframe (p_tree s) (p_tree s').
+  pframe (p_tree s) (p_tree s') /\ K (p_tree s') g'.
 
 Lemma arg_spec fuel obj arg s g l1 l2 GP m1 m2 :
-  TI s g -> glive g obj -> kids g obj = l1 ++ arg :: l2 -> ctx g obj GP m1 m2 ->
+  TI s g -> glive g obj -> kids g obj = l1 ++ arg :: l2 -> ctx g obj GP m1 m2 -> K (p_tree s) g ->
   wp True (connectNonNamedObjArg fuel obj arg) s (fun r s' => exists g' l2' m2',
      apost s g obj GP m1 s' g' m2' /\ kids g' obj = l1 ++ arg :: l2').
 Proof.
-  intros H Hl Hk Hctx. unfold connectNonNamedObjArg.
+  intros H Hl Hk Hctx HK. unfold connectNonNamedObjArg.
   pose proof (ti_R _ _ H) as HR.
   assert (Hin : In arg (kids g obj)) by (rewrite Hk; apply in_or_app; right; left; reflexivity).
   destruct ((R_gwf _ _ HR) _ _ Hin) as (_ & Hla).
   assert (Hdone : forall (r : pres), wp True (ret r) s (fun r s' => exists g' l2' m2',
      apost s g obj GP m1 s' g' m2' /\ kids g' obj = l1 ++ arg :: l2')).
-  { intros r. apply wp_ret. exists g, l2, m2. split; [|exact Hk]. split; auto. split; [apply reloc_refl|]. split; auto. split; auto. apply pframe_refl. }
+  { intros r. apply wp_ret. exists g, l2, m2. split; [|exact Hk]. split; auto. split; [apply reloc_refl|]. split; auto. split; auto. split; [apply pframe_refl|exact HK]. }
   destruct (TI_live_get _ _ _ H Hla) as (ao & Hao & Hlao).
   apply wp_bind. apply wp_rdo. exists ao. split; [exact Hao|].
   pose proof (ti_info _ _ H _ _ Hao Hlao) as Hinfo.
@@ -227,32 +264,36 @@ Proof.
   destruct (hasFlag fl aml_pOpFlagNamed || negb (o_tableHandle ao =? p_handle s)); [apply Hdone|].
   assert (Hlive : live (p_tree s) arg) by (apply (R_live_glive _ _ HR); exact Hla).
   apply wp_bind. eapply wp_tq; [apply (NumArgs_spec _ _ HR arg Hlive)|].
-  destruct ((argCount af <=? termArgIndex af) || (termArgIndex af <? N.of_nat (length (kids g arg)))); [apply Hdone|].
+  destruct ((argCount af <=? termArgIndex af) || (termArgIndex af <? N.of_nat (length (kids g arg)))) eqn:Ecnt; [apply Hdone|].
+  assert (Htg : tgt s arg).
+  { exists ao. split; [exact Hao|]. intros E. rewrite E in Erow. rewrite (np_row _ _ _ Erow) in Ecnt. discriminate. }
   unfold attachSiblingsAsArgs.
   destruct (sibling_links _ _ HR obj l1 arg l2 Hl Hk) as (ao' & Hao' & _ & _ & _ & Hnx & _).
   apply wp_bind. apply wp_rdf. exists ao'. split; [exact Hao'|]. rewrite Hnx.
   eapply wp_weaken; [apply (attach2_spec fuel obj arg (hd InvalidIndex l2) _ s g l1 l2 GP m1 m2 H Hl Hk Hctx)|auto|].
   - destruct l2 as [|y l2']; cbn [sib_ok hd]; [left|]; reflexivity.
-  - intros r s' (g' & l2' & m2' & F1 & F2 & F3 & F4 & F5 & F6). exists g', l2', m2'. split; [|exact F3]. split; auto.
+  - exact HK.
+  - exact Htg.
+  - intros r s' (g' & l2' & m2' & F1 & F2 & F3 & F4 & F5 & F6 & F7). exists g', l2', m2'. split; [|exact F3]. split; auto.
 Qed.
 
 (** ---- the walk ---- *)
-Definition CNN_spec (fuel : nat) : Prop := forall x s g GP m1 m2, TI s g -> glive g x -> ctx g x GP m1 m2 ->
+Definition CNN_spec (fuel : nat) : Prop := forall x s g GP m1 m2, TI s g -> glive g x -> ctx g x GP m1 m2 -> K (p_tree s) g ->
   wp True (connectNonNamedObjArgs fuel x) s (fun r s' => exists g' m2', apost s g x GP m1 s' g' m2').
 
-Definition NNloop_spec (fuel : nat) : Prop := forall obj argIndex s g GP m1 m2, TI s g -> glive g obj -> ctx g obj GP m1 m2 ->
+Definition NNloop_spec (fuel : nat) : Prop := forall obj argIndex s g GP m1 m2, TI s g -> glive g obj -> ctx g obj GP m1 m2 -> K (p_tree s) g ->
   (argIndex = InvalidIndex \/ In argIndex (kids g obj)) ->
   wp True (connectNonNamed_loop fuel obj argIndex) s (fun r s' => exists g' m2', apost s g obj GP m1 s' g' m2').
 
 Lemma step_CNN fuel : NNloop_spec fuel -> CNN_spec (S fuel).
 Proof.
-  intros IHl x s g GP m1 m2 H Hl Hctx. cbn [connectNonNamedObjArgs].
+  intros IHl x s g GP m1 m2 H Hl Hctx HK. cbn [connectNonNamedObjArgs].
   pose proof (ti_R _ _ H) as HR.
   apply wp_bind. apply wp_objectAt'; [apply (TI_ObjectAt _ _ _ H Hl)|].
   destruct (TI_live_get _ _ _ H Hl) as (o & Ho & Hlo).
   apply wp_bind. apply wp_rdf. exists o. split; [exact Ho|].
   destruct (R_kids _ _ HR _ _ Ho Hlo) as (_ & Hlast & _). rewrite Hlast.
-  apply (IHl x _ s g GP m1 m2 H Hl Hctx).
+  apply (IHl x _ s g GP m1 m2 H Hl Hctx HK).
   destruct (kids g x) as [|c l]; [left; reflexivity|right; apply last_In].
 Qed.
 
@@ -268,12 +309,12 @@ Qed.
 
 Lemma step_NNloop fuel : CNN_spec fuel -> NNloop_spec fuel -> NNloop_spec (S fuel).
 Proof.
-  intros IHc IHl obj argIndex s g GP m1 m2 H Hl Hctx Harg. cbn [connectNonNamed_loop].
+  intros IHc IHl obj argIndex s g GP m1 m2 H Hl Hctx HK Harg. cbn [connectNonNamed_loop].
   set (S0 := desc g (top obj GP)).
   assert (HS0top : S0 (top obj GP)) by constructor.
   assert (HS0obj : S0 obj) by (eapply desc_top; eauto).
   destruct (N.eqb_spec argIndex InvalidIndex) as [Ei|Ei].
-  { apply wp_ret. exists g, m2. split; auto. split; [apply reloc_refl|]. split; auto. split; auto. apply pframe_refl. }
+  { apply wp_ret. exists g, m2. split; auto. split; [apply reloc_refl|]. split; auto. split; auto. split; [apply pframe_refl|exact HK]. }
   destruct Harg as [?|Hin]; [contradiction|].
   pose proof (ti_R _ _ H) as HR. pose proof (R_gwf _ _ HR) as Hwf. destruct (Hwf _ _ Hin) as (_ & Hla).
   apply wp_bind. apply wp_objectAt'; [apply (TI_ObjectAt _ _ _ H Hla)|].
@@ -281,8 +322,8 @@ Proof.
   apply wp_bind. apply wp_rdf. exists ao0. split; [exact Hao0|]. rewrite (R_index _ _ HR _ _ Hao0).
   destruct (in_split _ _ Hin) as (l1 & l2 & Ekids).
   (* the subtree of the argument *)
-  apply wp_bind. eapply wp_weaken; [apply (IHc argIndex s g (Some obj) l1 l2 H Hla Ekids)|auto|].
-  intros res s1 (g1 & l2a & H1 & Rl1 & Hk1 & Hroots1 & Hpf1). cbn [top ctx] in Rl1, Hk1.
+  apply wp_bind. eapply wp_weaken; [apply (IHc argIndex s g (Some obj) l1 l2 H Hla Ekids HK)|auto|].
+  intros res s1 (g1 & l2a & H1 & Rl1 & Hk1 & Hroots1 & Hpf1 & HK1). cbn [top ctx] in Rl1, Hk1.
   assert (Rl1' : reloc g g1 S0).
   { eapply reloc_lift; [|exact Rl1]. intros y Hy. eapply desc_in_closed; [apply closed_desc|exact HS0obj|exact Hy]. }
   assert (Hctx1 : ctx g1 obj GP m1 m2) by (apply (ctx_inside s g g1 obj GP m1 m2 H Hctx Rl1 Hroots1)).
@@ -290,25 +331,25 @@ Proof.
   destruct (negb (pres_eqb res ROk)).
   { apply wp_ret. exists g1, m2. split; auto. }
   (* the argument itself *)
-  apply wp_bind. eapply wp_weaken; [apply (arg_spec fuel obj argIndex s1 g1 l1 l2a GP m1 m2 H1 Hl1 Hk1 Hctx1)|auto|].
-  intros r s2 (g2 & l2b & m2b & (H2 & Rl2 & Hctx2 & Hroots2 & Hpf2) & Hk2).
+  apply wp_bind. eapply wp_weaken; [apply (arg_spec fuel obj argIndex s1 g1 l1 l2a GP m1 m2 H1 Hl1 Hk1 Hctx1 HK1)|auto|].
+  intros r s2 (g2 & l2b & m2b & (H2 & Rl2 & Hctx2 & Hroots2 & Hpf2 & HK2) & Hk2).
   assert (Hpf02 : pframe (p_tree s) (p_tree s2)) by (eapply pframe_trans; eauto).
   assert (Rl2' : reloc g g2 S0) by (eapply reloc_chain; [apply closed_desc|exact HS0top|exact Rl1'|exact Rl2]).
   destruct (pres_eqb r RFailed).
   { apply wp_ret. exists g2, m2b. split; [exact H2|]. split; [exact Rl2'|]. split; [exact Hctx2|].
-    split; [intros r0 Hr0; apply Hroots2; apply Hroots1; exact Hr0|exact Hpf02]. }
+    split; [intros r0 Hr0; apply Hroots2; apply Hroots1; exact Hr0|]. split; [exact Hpf02|exact HK2]. }
   (* the previous argument *)
   pose proof (ti_R _ _ H2) as HR2.
   assert (Hin2 : In argIndex (kids g2 obj)) by (rewrite Hk2; apply in_or_app; right; left; reflexivity).
   destruct ((R_gwf _ _ HR2) _ _ Hin2) as (Hlo2 & Hla2).
   destruct (TI_live_get _ _ _ H2 Hla2) as (ao2 & Hao2 & Hlao2).
   apply wp_bind. apply wp_rdf. exists ao2. split; [exact Hao2|].
-  eapply wp_weaken; [apply (IHl obj (o_prev ao2) s2 g2 GP m1 m2b H2 Hlo2 Hctx2)|auto|].
+  eapply wp_weaken; [apply (IHl obj (o_prev ao2) s2 g2 GP m1 m2b H2 Hlo2 Hctx2 HK2)|auto|].
   - apply (prev_sibling _ _ HR2 obj argIndex ao2 Hin2 Hao2).
-  - intros r' s' (g' & m2' & F1 & F2 & F3 & F4 & F5). exists g', m2'. split; auto.
+  - intros r' s' (g' & m2' & F1 & F2 & F3 & F4 & F5 & F6). exists g', m2'. split; auto.
     split; [eapply reloc_chain; [apply closed_desc|exact HS0top|exact Rl2'|exact F2]|].
     split; [exact F3|]. split; [intros r0 Hr0; apply F4; apply Hroots2; apply Hroots1; exact Hr0|].
-    eapply pframe_trans; eauto.
+    split; [eapply pframe_trans; eauto|exact F6].
 Qed.
 
 Lemma nonNamed_all : forall fuel, CNN_spec fuel /\ NNloop_spec fuel.
@@ -317,6 +358,7 @@ Proof.
   - split; intro; intros; cbn [connectNonNamedObjArgs connectNonNamed_loop]; apply wp_outOfFuel; exact I.
   - split; [apply step_CNN; exact IHl|apply step_NNloop; assumption].
 Qed.
+End Inv.
 
 (** connectNonNamedObjArgs from a root object: never panics, keeps the invariants *)
 Theorem connectNonNamedObjArgs_never_panics : forall fuel x s g,
@@ -328,7 +370,7 @@ Theorem connectNonNamedObjArgs_never_panics : forall fuel x s g,
   end.
 Proof.
   intros fuel x s g HR Hi Hp Hl Hroot.
-  pose proof (proj1 (nonNamed_all fuel) x s g None [] [] (mkTI _ _ HR Hi Hp) Hl (conj Hroot eq_refl)) as W. unfold wp in W.
+  pose proof (proj1 (nonNamed_all KT KT_move fuel) x s g None [] [] (mkTI _ _ HR Hi Hp) Hl (conj Hroot eq_refl) I) as W. unfold wp in W.
   destruct (connectNonNamedObjArgs fuel x s) as [[r s']| |]; auto.
   destruct W as (g' & m2' & [A B C] & _). eauto.
 Qed.
